@@ -5,6 +5,10 @@
 
 package reconciledloader
 
+//@ -- these contracts are seen by the packs of C01, C02 and C06 only; in every other pack calls into this package stay
+//@ -- abstracted (listed in that pack's trusted base), exactly as before this file existed
+//@ onlyfor C01 C02 C06
+
 //@ -- a CID is "the sum of" some bytes when hashing exactly these bytes under the CID's prefix gives the CID
 
 //@ -- C01: a remote item never carries bytes that do not hash to its own link
